@@ -101,8 +101,9 @@ type loopFrame struct {
 }
 
 type closure struct {
-	lit  *ast.FuncLit
-	name string
+	lit    *ast.FuncLit
+	name   string
+	native func(args []Val) []Val // engine-level function value (the body of a range-over-func loop seen as yield)
 }
 
 // Program holds everything loaded.
@@ -529,7 +530,18 @@ func (ex *Exec) refBounds(t types.Type, v *T, frontier *T, depth int) *T {
 
 // vfield returns the value-struct field accessor term V.T.f(h).
 func (ex *Exec) vfield(h *T, st types.Type, f *types.Var) *T {
-	name := "V." + structName(st) + "." + f.Name()
+	fname := f.Name()
+	if fname == "_" {
+		// blank fields share their name: tell them apart by position
+		if su := structOf(st); su != nil {
+			for i := 0; i < su.NumFields(); i++ {
+				if su.Field(i) == f {
+					fname = fmt.Sprintf("_%d", i)
+				}
+			}
+		}
+	}
+	name := "V." + structName(st) + "." + fname
 	s := sortOf(f.Type())
 	if _, ok := ex.decls[name]; !ok {
 		ex.declare(name, []Sort{SInt}, s)
@@ -855,7 +867,7 @@ func (ex *Exec) valueEq(a, b *T, t types.Type) *T {
 func (ex *Exec) merge(states []*State) *State {
 	var live []*State
 	for _, s := range states {
-		if s != nil && !s.dead {
+		if s != nil && !s.dead && s.pc != False {
 			live = append(live, s)
 		}
 	}
